@@ -235,14 +235,21 @@ def check(run, prog, tier):
 
     # the value stack is unwound by a count that cannot be negative: inside the apply family the context is saved with the
     # arguments on the stack, and a callee that fails may already have dropped some of them (sp below save_sp)
-    pops = [(b, i, n) for b, i, n in rc.calls("pop_n_elems") if n.get("args") and any(x.get("k") == "Mem" and x.get("f") == "save_sp" for x in walk(n["args"][0]))]
+    # econ->save_sp, or a local that was loaded from it
+    sp_alias = {v.get("id") for b, i, n in rc.nodes() if n.get("k") == "Decl" for v in n.get("vars", ()) if isinstance(v.get("init"), dict) and strip(v["init"]).get("k") == "Mem" and strip(v["init"]).get("f") == "save_sp"}
+    sp_alias |= {strip(n["L"]).get("id") for b, i, n in rc.nodes() if n.get("k") == "Asg" and n.get("op") == "=" and strip(n["L"]).get("k") == "Ref" and strip(n["R"]).get("k") == "Mem" and strip(n["R"]).get("f") == "save_sp"}
+    sp_alias.discard(None)
+
+    def is_saved_sp(x):
+        return (x.get("k") == "Mem" and x.get("f") == "save_sp") or (x.get("k") == "Ref" and x.get("id") in sp_alias)
+    pops = [(b, i, n) for b, i, n in rc.calls("pop_n_elems") if n.get("args") and any(is_saved_sp(x) for x in walk(n["args"][0]))]
     run.need(pops, "pop_n_elems(sp - econ->save_sp) in restore_context")
     for j, (b, i, n) in enumerate(pops):
         g_ok = False
         for c, truth, gb in cfgq.guards(rc, b.id):
             e, t = normalize_cond(c, truth)
             e = strip(e)
-            if e.get("k") == "Bin" and e.get("op") in (">", ">=", "<", "<=") and any(x.get("k") == "Mem" and x.get("f") == "save_sp" for x in walk(e)) and any(x.get("k") == "Ref" and x.get("n") == "sp" for x in walk(e)):
+            if e.get("k") == "Bin" and e.get("op") in (">", ">=", "<", "<=") and any(is_saved_sp(x) for x in walk(e)) and any(x.get("k") == "Ref" and x.get("n") == "sp" for x in walk(e)):
                 op = e["op"] if t else {">": "<=", ">=": "<", "<": ">=", "<=": ">"}[e["op"]]
                 sp_left = any(x.get("k") == "Ref" and x.get("n") == "sp" for x in walk(e["L"]))
                 if (sp_left and op in (">", ">=")) or (not sp_left and op in ("<", "<=")):
